@@ -106,11 +106,13 @@ class Scanner(Interp):
     def on_call(self, text, callee, args, kwargs, node, frame):
         if text == 'ScriptRunner':
             return Obj('ScriptRunnerStub', {})
-        if text == 'sr.run':
+        # (recognised by the scripted receiver, not by the name of the variable that holds it)
+        recv_cls = callee.recv.cls if isinstance(callee, UnknownMethod) and isinstance(callee.recv, Obj) else None
+        if text == 'sr.run' or (recv_cls == 'ScriptRunnerStub' and callee.name == 'run'):
             m = args[0]
             self.event('filter', m.fields['__start'], m.fields['__mode'])
             return self.msgs[m.fields['__start']].matched
-        if text == 'decoder.process':
+        if text == 'decoder.process' or (recv_cls == 'DecoderStub' and callee.name == 'process'):
             span = args[0]
             info_only = kwargs.get('info_only', False)
             if not (isinstance(span, Obj) and span.cls == 'Span'):
